@@ -4,6 +4,7 @@ import (
 	"fmt"
 	"go/ast"
 	"go/constant"
+	"go/token"
 	"go/types"
 	"strings"
 
@@ -336,6 +337,7 @@ func init() {
 // decodable entry is answered (or is a notification); (param-validated) a parameter value is handed to the handler only
 // after it was decoded into the handler's type and — when a validator is configured — validated.
 func c11BatchAndParams(c *Ctx) {
+	c11UnknownNameRejected(c)
 	p := c.P
 	if f := p.Func("jsonrpc", "Server", "handleBatchRequest"); f != nil {
 		n := 0
@@ -542,4 +544,162 @@ func c11BufferOwnership(c *Ctx) {
 	}
 	c.needFixture("no-retain")
 	c.needFixture("no-pooled-escape")
+}
+
+// c11UnknownNameRejected: when parameters are given by name, a request that carries a name the method does not declare is
+// rejected (-32602) on every path — by-name and positional binding must not diverge on junk. Structurally: from the point
+// where the params object is recognised as a map, every path to a successful return either (A) iterates over that map (the
+// leftover scan: names not consumed by the binding loop), or (B) passes a test of len(map) against 0, or against a counter
+// that is incremented only where a declared name was found in the map. Seeded change C11-G runs the scan only when a counter
+// that also counts defaulted optional parameters differs from len(map).
+func c11UnknownNameRejected(c *Ctx) {
+	p := c.P
+	f := p.Func("jsonrpc", "Server", "buildArguments")
+	if f == nil {
+		c.und("unknown-name-rejected", "Server.buildArguments", "", "anchor not found")
+		return
+	}
+	var ta *ssa.TypeAssert
+	allInstrs(f, func(in ssa.Instruction) {
+		if x, ok := in.(*ssa.TypeAssert); ok {
+			if m, isMap := x.AssertedType.Underlying().(*types.Map); isMap && m.Key().String() == "string" {
+				ta = x
+			}
+		}
+	})
+	if ta == nil {
+		c.und("unknown-name-rejected", "buildArguments: named branch", p.Pos(fnPos(f)), "type assertion of params to a string-keyed map not found")
+		return
+	}
+	isM := func(v ssa.Value) bool {
+		for d := 0; v != nil && d < 6; d++ {
+			if v == ssa.Value(ta) {
+				return true
+			}
+			switch x := v.(type) {
+			case *ssa.Extract:
+				v = x.Tuple
+			case *ssa.ChangeType:
+				v = x.X
+			case *ssa.Phi:
+				if len(x.Edges) == 0 {
+					return false
+				}
+				v = x.Edges[0]
+			default:
+				return false
+			}
+		}
+		return false
+	}
+	pass := map[*ssa.BasicBlock]string{}
+	allInstrs(f, func(in ssa.Instruction) {
+		switch x := in.(type) {
+		case *ssa.Range:
+			if isM(x.X) {
+				pass[in.Block()] = "leftover scan over the params object"
+			}
+		case *ssa.If:
+			b, ok := x.Cond.(*ssa.BinOp)
+			if !ok {
+				return
+			}
+			lenOfM := func(v ssa.Value) bool {
+				call, ok := v.(*ssa.Call)
+				if !ok {
+					return false
+				}
+				bi, ok := call.Call.Value.(*ssa.Builtin)
+				return ok && bi.Name() == "len" && isM(call.Call.Args[0])
+			}
+			var other ssa.Value
+			switch {
+			case lenOfM(b.X):
+				other = b.Y
+			case lenOfM(b.Y):
+				other = b.X
+			default:
+				return
+			}
+			if k, isK := other.(*ssa.Const); isK && k.Value != nil && k.Int64() == 0 {
+				pass[in.Block()] = "len(params object) tested against 0"
+				return
+			}
+			// a counter: φ whose increments are all under the found-branch of a lookup in the map
+			ph, isPhi := other.(*ssa.Phi)
+			if !isPhi {
+				return
+			}
+			okCounter := true
+			nInc := 0
+			var visit func(v ssa.Value, d int)
+			seen := map[ssa.Value]bool{}
+			visit = func(v ssa.Value, d int) {
+				if seen[v] || d > 8 {
+					return
+				}
+				seen[v] = true
+				switch y := v.(type) {
+				case *ssa.Phi:
+					for _, e := range y.Edges {
+						visit(e, d+1)
+					}
+				case *ssa.BinOp:
+					if y.Op != token.ADD {
+						okCounter = false
+						return
+					}
+					nInc++
+					found := false
+					for _, fct := range factsAt(y) {
+						if ex, isEx := fct.Cond.(*ssa.Extract); isEx && fct.Pos && ex.Index == 1 {
+							if lk, isLk := ex.Tuple.(*ssa.Lookup); isLk && lk.CommaOk && isM(lk.X) {
+								found = true
+							}
+						}
+					}
+					if !found {
+						okCounter = false
+					}
+					visit(y.X, d+1)
+				case *ssa.Const:
+				default:
+					okCounter = false
+				}
+			}
+			visit(ph, 0)
+			if okCounter && nInc > 0 {
+				pass[in.Block()] = "len(params object) tested against the number of declared names found in it"
+			}
+		}
+	})
+	bad := ""
+	seenB := map[*ssa.BasicBlock]bool{}
+	q := append([]*ssa.BasicBlock{}, ta.Block().Succs...)
+	if _, ok := pass[ta.Block()]; ok {
+		q = nil
+	}
+	for len(q) > 0 {
+		b := q[0]
+		q = q[1:]
+		if seenB[b] {
+			continue
+		}
+		if _, ok := pass[b]; ok {
+			continue
+		}
+		seenB[b] = true
+		if ret, ok := b.Instrs[len(b.Instrs)-1].(*ssa.Return); ok {
+			if len(ret.Results) > 0 && isNilConst(unspill(ret.Results[len(ret.Results)-1], b)) {
+				bad = p.Pos(posOf(ret, f))
+			}
+			continue
+		}
+		q = append(q, b.Succs...)
+	}
+	how := ""
+	for _, h := range pass {
+		how = h
+	}
+	c.check(bad == "" && len(pass) > 0, "unknown-name-rejected", "buildArguments: named parameters", p.Pos(ta.Pos()), "every successful path of the by-name branch passes the unknown-name test ("+how+")", "the by-name branch reaches the successful return at "+bad+" without testing the params object for names the method does not declare: a misspelt optional parameter is silently replaced by its default")
 }
